@@ -2,11 +2,15 @@
 existence test and logical operators over the operands the evaluator passes around:
 a JSON value, the special result Nothing (`UNDEFINED`), or a nodelist (`NodeList`)."""
 from jsonpath.filter import UNDEFINED
+from jsonpath.match import JSONPathMatch
 from jsonpath.match import NodeList
 
 import re
 
+from jsonpath.selectors import FilterContext
 from specs.prims import json_equal
+from specs.rfc9535 import child_element
+from specs.rfc9535 import child_member
 
 
 def is_nothing(x):
@@ -107,3 +111,169 @@ def member_of(x, container):
 def is_pattern(x):
 
     return isinstance(x, re.Pattern)
+
+
+# ---- filter expression nodes (2.3.5.1 syntax / 2.3.5.2 semantics)
+
+def singular(x):
+    """2.3.5.2.2: a singular query used as a comparable stands for the value of its single node."""
+    if isinstance(x, NodeList):
+        if len(x) == 1:
+            return x[0].obj
+    return x
+
+
+def infix_evaluate(expr, context):
+    """`left op right`: comparison (operands unwrapped) or logical and/or (operands as tests)."""
+    left = expr.left.evaluate(context)
+    right = expr.right.evaluate(context)
+    if expr.operator == "&&" or expr.operator == "||":
+        return ext_compare(left, expr.operator, right)
+    return ext_compare(singular(left), expr.operator, singular(right))
+
+
+def prefix_evaluate(expr, context):
+    """`!e`: logical negation of the test / logical value of e."""
+    return not rfc_test(expr.right.evaluate(context))
+
+
+def boolean_evaluate(expr, context):
+    """The filter selector's logical expression: a test (existence, not truthiness)."""
+    return rfc_test(expr.expression.evaluate(context))
+
+
+def list_literal_evaluate(expr, context):
+    return [item.evaluate(context) for item in expr.items]
+
+
+def current_key_evaluate(context):
+    """`#`: the member name or array index of the candidate child (Nothing at the root)."""
+    if context.current_key is None:
+        return UNDEFINED
+    return context.current_key
+
+
+# ---- embedded queries (2.3.5.1: filter-query = rel-query / jsonpath-query)
+
+def self_path_evaluate(expr, context):
+    """`@...`: the nodelist of the relative query started at the candidate child; inside it `$`
+    still denotes the root of the query argument and the filter context is the caller's."""
+    return NodeList(query_nodes(expr.path, context.current, context.root, context.extra_context))
+
+
+def root_path_evaluate(expr, context):
+    """`$...`: the nodelist of the query started at the root of the query argument."""
+    return NodeList(query_nodes(expr.path, context.root, context.root, context.extra_context))
+
+
+def filter_context_path_evaluate(expr, context):
+    """`_...` (documented extension): the query started at the caller-supplied mapping."""
+    return NodeList(query_nodes(expr.path, context.extra_context, context.extra_context, context.extra_context))
+
+
+def query_nodes(path, start, root, filter_context):
+    """Apply the segments of `path` to the single node `start`, whose root is `root`."""
+
+
+    matches = [
+        JSONPathMatch(
+            filter_context=filter_context,
+            obj=[start] if path.fake_root else start,
+            parent=None,
+            path=path.env.root_token,
+            parts=(),
+            root=root,
+        )
+    ]
+    for selector in path.selectors:
+        matches = selector.resolve(matches)
+    return matches
+
+
+# ---- 2.3.5 filter selector: which children are selected, and the context of the test
+
+def filter_selector(expression, env, m):
+
+
+    obj = m.obj
+    if isinstance(obj, dict):
+        for k, v in obj.items():
+            context = FilterContext(env=env, current=v, root=m.root, extra_context=m.filter_context(), current_key=k)
+            if expression.evaluate(context):
+                yield child_member(m, k, v)
+    elif isinstance(obj, list):
+        for i, v in enumerate(obj):
+            context = FilterContext(env=env, current=v, root=m.root, extra_context=m.filter_context(), current_key=i)
+            if expression.evaluate(context):
+                yield child_element(m, i, v)
+
+
+def filter_segment(expression, env, matches):
+    for m in matches:
+        yield from filter_selector(expression, env, m)
+
+
+# ---- 2.4 function extensions
+
+def value_argument(x):
+    """2.4.3: a ValueType parameter given a singular query takes the node's value, or Nothing."""
+    if isinstance(x, NodeList):
+        if len(x) == 0:
+            return UNDEFINED
+        if len(x) == 1:
+            return x[0].obj
+    return x
+
+
+def fn_length(v):
+    """2.4.4"""
+    if isinstance(v, (str, list, dict)):
+        return len(v)
+    return UNDEFINED
+
+
+def fn_count(nodes):
+    """2.4.5"""
+    return len(nodes)
+
+
+def fn_value(nodes):
+    """2.4.8"""
+    if len(nodes) == 1:
+        return nodes[0].obj
+    return UNDEFINED
+
+
+def fn_match(s, p):
+    """2.4.6 (regular expressions restricted to the dialect shared by `re` and I-Regexp)"""
+    if isinstance(s, str) and isinstance(p, str):
+        try:
+            return bool(re.fullmatch(p, s))
+        except re.error:
+            return False
+    return False
+
+
+def fn_search(s, p):
+    """2.4.7"""
+    if isinstance(s, str) and isinstance(p, str):
+        try:
+            return bool(re.search(p, s))
+        except re.error:
+            return False
+    return False
+
+
+def function_evaluate(expr, context):
+    args = [a.evaluate(context) for a in expr.args]
+    if expr.name == "length":
+        return fn_length(value_argument(args[0]))
+    if expr.name == "count":
+        return fn_count(args[0])
+    if expr.name == "value":
+        return fn_value(args[0])
+    if expr.name == "match":
+        return fn_match(value_argument(args[0]), value_argument(args[1]))
+    if expr.name == "search":
+        return fn_search(value_argument(args[0]), value_argument(args[1]))
+    return UNDEFINED
